@@ -13,6 +13,7 @@ import (
 	"os"
 	"path/filepath"
 	"sort"
+	"strconv"
 	"strings"
 	"time"
 
@@ -292,6 +293,12 @@ func (sc *c17Scenario) Run(s *simrt.Sim) {
 	params := network.PathParam{}
 	for k, v := range sc.Params {
 		params[k] = v
+		if n, err := strconv.Atoi(v); err == nil {
+			params[k] = n // non-string values are rendered with %v
+		}
+	}
+	if len(sc.Params) == 0 && sc.TornAt%2 == 0 {
+		params = nil
 	}
 	// files for multipart bodies live in a scratch directory of this run
 	dir := c17Dir()
